@@ -947,6 +947,9 @@ impl BreadthFirstSearch {
         let mut path = Vec::new();
         let mut max_depth = 0;
 
+        // Everything derived during the search is speculative until the root goal is proven
+        facts.begin_undo_frame();
+
         queue.push_back((root_goal as *mut Goal, 0));
 
         while let Some((goal_ptr, depth)) = queue.pop_front() {
@@ -1001,6 +1004,13 @@ impl BreadthFirstSearch {
         }
 
         let success = root_goal.is_proven();
+
+        if success {
+            facts.commit_undo_frame();
+        } else {
+            // A failed proof must leave the caller's facts untouched
+            facts.rollback_undo_frame();
+        }
 
         SearchResult {
             success,
